@@ -13,10 +13,23 @@ WithSgrid(c, lopt, r) ==      \* accessor: sgrid must be log10(lambda) as float3
     IF r[1] = "REJECT" \/ c.sg = "" \/ c.sgonly THEN r
     ELSE IF Sgrid32OK(c.sg, lopt) THEN r ELSE <<"REJECT", "Sgrid32", c.sg>>
 
+\* robust GCV on degenerate residual distributions (C05): the band is a smoothed version of the
+\* series, not zeros / NaN-garbage: an exactly linear (or constant) series comes back unchanged with
+\* its gaps filled on the line; a flat series with isolated spikes stays within [L - 2H, L + 2H].
+RobustFam(c) ==
+    LET n == Len(c.y) IN
+    IF Len(c.out) # n THEN <<"REJECT", "Length", "">>
+    ELSE IF GridIndex(c.grid, c.lopt) = 0 THEN <<"REJECT", "InGrid", c.lopt>>
+    ELSE IF c.fam \in {"const", "linear"} THEN
+         (IF \A j \in 1..n : ToString(c.out[j]) = c.line[j] THEN <<"ACCEPT", "", c.fam>> ELSE <<"REJECT", "KeepsAffine", c.fam>>)
+    ELSE (IF \A j \in 1..n : c.out[j] >= c.level - 2 * c.height /\ c.out[j] <= c.level + 2 * c.height
+          THEN <<"ACCEPT", "", "spikes">> ELSE <<"REJECT", "NotZeroed", "">>)
+
 Verdict(c) ==
     CASE c.op = "fixed" -> FixedVerdict(c.y, c.nd, c.lam, c.out, c.hasp, c.p, c.hints, c.hinted)
       [] c.op = "vcurve" -> WithSgrid(c, VLopt(c), VCurveVerdict(c.variant, c.y, c.nd, c.grid, c.lc, c.hasp, c.p, c.out, VLopt(c), c.pats, c.hints, c.hinted, c.swept))
       [] c.op = "gcv" -> WithSgrid(c, GLopt(c), GcvVerdict(c.y, c.nd, c.grid, c.robust, c.hasp, c.p, c.out, GLopt(c), c.hints, c.hinted))
+      [] c.op = "robustfam" -> RobustFam(c)
       [] OTHER -> <<"REJECT", "UnknownOp", c.op>>
 
 Init == k \in 1..Len(Cases) /\ v = "todo"
